@@ -148,7 +148,9 @@ AgreeMetrics(parts, m) ==
 (* State *)
 
 InitState == [tbl |-> <<>>, row |-> <<>>, ec |-> <<>>, cb |-> <<>>,
-              cv |-> <<>>, hd |-> <<>>, wr |-> <<>>]
+              cv |-> <<>>, hd |-> <<>>, wr |-> <<>>,
+              reg |-> <<>>,     \* the decoration registry as this scenario sees it (name -> decoration)
+              defdec |-> <<>>]  \* the decoration a new text wrapper starts with
 
 NewColumn == [props |-> EmptyMap]
 
